@@ -41,14 +41,14 @@ type v06RaceCase struct {
 	warmT    int
 }
 
-func v06RunRace(rc v06RaceCase) string {
+func v06RunRace(rc v06RaceCase, st *vStats) string {
 	w := v06NewWorld()
 	w.hasLogger, w.fastOpen = true, rc.fastOpen
 	u := w.addUser(0, false)
 	c := w.addConn(u, 0, 0x1111, 0x2222)
 	p := &v06Plan{fastOpen: rc.fastOpen, logger: true, nUsers: 1, nSegs: 1, vetoUser: -1}
 	cp := &v06ConnPlan{readBuf: 32768}
-	r := &v06Run{w: w, p: p, st: newVStats("unused"), conns: []*v06Conn{c}, plans: []*v06ConnPlan{cp}}
+	r := &v06Run{w: w, p: p, st: st, conns: []*v06Conn{c}, plans: []*v06ConnPlan{cp}}
 	w.start()
 	defer w.stop()
 	if !r.open(c, cp) {
@@ -78,7 +78,8 @@ func v06RunRace(rc v06RaceCase) string {
 	select {
 	case <-pk.parkedCh:
 	case <-time.After(v06WaitLong):
-		vInconclusive("C06 veto race: the relay never asked the logger about the chunk")
+		r.stall(c, "the relay never asked the logger about the chunk")
+		return w.failed()
 	}
 	// the other direction ends while the verdict is pending
 	w.mu.Lock()
@@ -173,7 +174,7 @@ func TestVerifC06_VetoRacingClose(t *testing.T) {
 		st.Case(true, fmt.Sprintf("%v/%v/%s/%s/%s", rc.fastOpen, rc.vetoTx, v06SizeClass(rc.chunk), v06SizeClass(rc.warmC), v06SizeClass(rc.warmT)),
 			[]string{fmt.Sprintf("vetoTx:%v", rc.vetoTx), fmt.Sprintf("fastopen:%v", rc.fastOpen), fmt.Sprintf("warm:%v", rc.warmC > 0)},
 			func() string { return fmt.Sprintf("%+v", rc) })
-		if f := v06RunRace(rc); f != "" {
+		if f := v06RunRace(rc, st); f != "" {
 			rt.Fatalf("C06: %s: %s\n  case: %+v", rc.name, f, rc)
 		}
 	})
